@@ -24,16 +24,16 @@ func (s *State) clone() *State {
 }
 
 type Obl struct {
-	Name    string
-	Kind    string // pre post inv.est inv.pres call.pre safe.* frame fdef
-	Label   string
-	Goal    *Term
-	CtxLen  int
-	Func    string
-	Line    int
-	Props   []string
-	Src     string
-	Callee  string
+	Name   string
+	Kind   string // pre post inv.est inv.pres call.pre safe.* frame fdef
+	Label  string
+	Goal   *Term
+	CtxLen int
+	Func   string
+	Line   int
+	Props  []string
+	Src    string
+	Callee string
 	// results
 	Status string // unsat sat unknown timeout error
 	Solver string
@@ -301,7 +301,7 @@ func (vc *VC) script(o *Obl, withModel bool) string {
 		sb.WriteString("; clause: " + strings.ReplaceAll(o.Src, "\n", " ") + "\n")
 	}
 	sb.WriteString("(set-option :produce-models true)\n(set-logic ALL)\n")
-	sb.WriteString(vc.e.preamble())
+	sb.WriteString(vc.e.preamble(vc.usesMS(o.CtxLen, o.Goal)))
 	for _, c := range vc.cmds[:o.CtxLen] {
 		sb.WriteString(c)
 		sb.WriteByte('\n')
@@ -313,8 +313,21 @@ func (vc *VC) script(o *Obl, withModel bool) string {
 	return sb.String()
 }
 
-func (e *Engine) preamble() string {
+func (vc *VC) usesMS(n int, goal *Term) bool {
+	if goal != nil && strings.Contains(goal.String(), "msOfF") {
+		return true
+	}
+	for _, c := range vc.cmds[:n] {
+		if strings.Contains(c, "msOfF") {
+			return true
+		}
+	}
+	return false
+}
+
+func (e *Engine) preamble(withMS bool) string {
 	var sb strings.Builder
+	sb.WriteString("(declare-sort MSet 0)\n")
 	names := make([]string, 0, len(e.UFuncs))
 	for n := range e.UFuncs {
 		names = append(names, n)
@@ -323,6 +336,10 @@ func (e *Engine) preamble() string {
 	for _, n := range names {
 		u := e.UFuncs[n]
 		sb.WriteString("(declare-fun " + u.Name + " (" + strings.Join(u.Args, " ") + ") " + u.Ret + ")\n")
+	}
+	sb.WriteString("(declare-fun msOfF ((Array Int " + e.FloatSort + ") Int Int) MSet)\n(declare-fun msOfI ((Array Int Int) Int Int) MSet)\n")
+	if withMS {
+		sb.WriteString("(assert (forall ((a (Array Int " + e.FloatSort + ")) (oa Int) (b (Array Int " + e.FloatSort + ")) (ob Int) (n Int)) (! (=> (forall ((k Int)) (=> (and (<= 0 k) (< k n)) (= (select a (+ oa k)) (select b (+ ob k))))) (= (msOfF a oa n) (msOfF b ob n))) :pattern ((msOfF a oa n) (msOfF b ob n)))))\n")
 	}
 	sb.WriteString("(declare-fun f2i (" + e.FloatSort + ") Int)\n")
 	sb.WriteString("(declare-fun strcat (Int Int) Int)\n(declare-fun strlen (Int) Int)\n")
